@@ -396,6 +396,127 @@ theorem byConstituency_max_seats_forced_witness :
 
 /-! ## 5. what the laws say, spelled out -/
 
+/-- every constituency of the votes is mentioned by the apportionment -/
+def Covered (seats votes : V) : Prop :=
+  ∀ sd kvs, seats = .dict sd → votes = .dict kvs → ∀ p ∈ kvs, D.has sd p.1 = true
+
+/-- the ideal reading of per-constituency evaluation (a constituency the table does not mention has no
+    seats; empty results even when nothing is evaluated) coincides with what the code does whenever the
+    apportionment mentions every constituency and the code's composition yields a value, i.e. at least
+    one constituency is evaluated -/
+theorem byConstituency_ideal (dflt : V) (P : Sem) (app : App Sem) (pre : Option Sem) (a : Args) (r : V)
+    (hcov : ∀ seats, apportionLaw app a.votes (a.n.getD .none) = .ok seats → Covered seats a.votes)
+    (hr : byConstituencyLaw P app pre a = .ok r) :
+    byConstituencyIdeal dflt P app pre a = .ok r := by
+  simp only [byConstituencyLaw, byConstituencyIdeal] at hr ⊢
+  cases hs : apportionLaw app a.votes (a.n.getD .none) with
+  | error e => rw [hs] at hr; cases hr
+  | ok seats =>
+    rw [hs] at hr
+    simp only [ok_bind] at hr ⊢
+    have hc := hcov seats hs
+    cases hal : allowedLaw pre a.votes (a.n.getD .none) with
+    | error e => rw [hal] at hr; cases hr
+    | ok allowed =>
+      rw [hal] at hr
+      simp only [ok_bind] at hr ⊢
+      cases hv : a.votes with
+      | dict kvs =>
+        rw [hv] at hr
+        simp only [V.items, ok_bind] at hr ⊢
+        have hfun : districtsLaw P allowed seats (a.prev.getD (.dict [])) (a.max.getD (.dict [])) (.num 0) kvs
+            = districtsLaw P allowed seats (a.prev.getD (.dict [])) (a.max.getD (.dict [])) .none kvs := by
+          unfold districtsLaw
+          apply mapM_congr'
+          intro p hp
+          cases seats with
+          | dict sd =>
+            obtain ⟨v, hv'⟩ := D.get?_of_has sd p.1 (hc sd kvs rfl hv p hp)
+            simp [V.items, hv']
+          | num _ => rfl
+          | cand _ => rfl
+          | tie _ => rfl
+          | none => rfl
+          | list _ => rfl
+        rw [hfun]
+        cases hrs : districtsLaw P allowed seats (a.prev.getD (.dict [])) (a.max.getD (.dict [])) .none kvs with
+        | error e => rw [hrs] at hr; cases hr
+        | ok rs =>
+          rw [hrs] at hr
+          simp only [ok_bind] at hr ⊢
+          cases hf : rs.findSome? (·.2) with
+          | none => rw [hf] at hr; cases hr
+          | some first => rw [hf] at hr; simpa using hr
+      | num _ => rw [hv] at hr; cases hr
+      | cand _ => rw [hv] at hr; cases hr
+      | tie _ => rw [hv] at hr; cases hr
+      | none => rw [hv] at hr; cases hr
+      | list _ => rw [hv] at hr; cases hr
+
+/-- each constituency separately: in the composition, the entry of a constituency that is evaluated is
+    exactly the part's result on that constituency's (preselected) votes with that constituency's seats,
+    previous gains and caps -/
+theorem byConstituency_pointwise (P : Sem) (allowed : Option V) (seats prev max missing : V) (kvs : D)
+    (rs : List (Key × Option V)) (h : districtsLaw P allowed seats prev max missing kvs = .ok rs) :
+    Pointwise (fun (p : Key × V) (q : Key × Option V) =>
+      q.1 = p.1 ∧ ∃ sd pd md, seats = .dict sd ∧ prev = .dict pd ∧ max = .dict md ∧
+        districtLaw P allowed p.2 ((D.get? sd p.1).getD missing) ((D.get? pd p.1).getD (.dict []))
+          ((D.get? md p.1).getD (.dict [])) = .ok q.2) kvs rs := by
+  unfold districtsLaw at h
+  have hp := mapM_ok_forall₂ h
+  clear h
+  induction hp with
+  | nil => exact .nil
+  | @cons x y xs ys hxy _ ih =>
+    refine .cons ?_ ih
+    cases seats with
+    | dict sd =>
+      cases prev with
+      | dict pd =>
+        cases max with
+        | dict md =>
+          simp only [V.items, ok_bind] at hxy
+          cases hd : districtLaw P allowed x.2 ((D.get? sd x.1).getD missing) ((D.get? pd x.1).getD (.dict []))
+              ((D.get? md x.1).getD (.dict [])) with
+          | error e => rw [hd] at hxy; cases hxy
+          | ok o =>
+            rw [hd] at hxy
+            have : y = (x.1, o) := by cases hxy; rfl
+            subst this
+            exact ⟨rfl, sd, pd, md, rfl, rfl, rfl, hd⟩
+        | num _ => cases hxy
+        | cand _ => cases hxy
+        | tie _ => cases hxy
+        | none => cases hxy
+        | list _ => cases hxy
+      | num _ => cases hxy
+      | cand _ => cases hxy
+      | tie _ => cases hxy
+      | none => cases hxy
+      | list _ => cases hxy
+    | num _ => cases hxy
+    | cand _ => cases hxy
+    | tie _ => cases hxy
+    | none => cases hxy
+    | list _ => cases hxy
+
+/-- … and a constituency is evaluated exactly when its seat entry is not zero: its value is the part's
+    result, or nothing when the part returns None -/
+theorem district_evaluated (P : Sem) (allowed : Option V) (dv seats pv mx : V) (hz : isZero seats = false) :
+    districtLaw P allowed dv seats pv mx
+      = (do let dv' ← (match allowed with
+                        | some ps => subsetVotes dv ps
+                        | Option.none => pure dv)
+            let r ← P { votes := dv', n := some seats, prev := some pv, max := some mx }
+            pure (if isNone r then Option.none else some r)) := by
+  cases allowed <;> simp [districtLaw, hz] <;> rfl
+
+theorem district_without_seats (P : Sem) (allowed : Option V) (dv seats pv mx : V) (hz : isZero seats = true) :
+    districtLaw P allowed dv seats pv mx = .ok Option.none := by
+  simp [districtLaw, hz]; rfl
+
+
+
 /-- multi-stage = chaining: the first stage runs on the previous gains, the remaining stages on the previous
     gains plus what the first stage awarded -/
 theorem multistage_chain (depth : Nat) (n mx : V) (st : Sem) (sv' : V) (rest : List (Sem × V)) (acc : V) :
@@ -471,6 +592,90 @@ theorem tieChoice_among (votes : V) (tie : List Cand) (among : V) (h : subsetVot
   | tie _ => simp [subsetVotes, V.items] at h
   | none => simp [subsetVotes, V.items] at h
   | list _ => simp [subsetVotes, V.items] at h
+
+/-- party-list evaluation seats exactly as many list candidates as the party won: with closed lists the
+    result has one entry per party of the party result, namely the first `k` candidates of the party's
+    list, `k` the party's seats (the whole list when it is shorter) -/
+theorem partyList_seats_exactly (P : Sem) (c : Option (V → Except Err V)) (a : Args) (r : V)
+    (h : partyListLaw P Option.none c a = .ok r) :
+    ∃ n pl won rs, a.n = some n ∧ a.pl = some pl
+      ∧ P { votes := a.votes, n := some n, prev := a.prev, max := a.max } = .ok (.dict won)
+      ∧ r = .dict rs
+      ∧ Pointwise (fun (w : Key × V) (q : Key × V) => q.1 = w.1 ∧ ∃ pld lst k, pl = .dict pld
+          ∧ D.get? pld w.1 = some (.list lst) ∧ w.2.asNat = .ok k ∧ q.2 = .list (lst.take k)
+          ∧ (lst.take k).length = min k lst.length) won rs := by
+  simp only [partyListLaw] at h
+  cases hn : a.n with
+  | none => rw [hn] at h; cases h
+  | some n =>
+    rw [hn] at h
+    cases hpl : a.pl with
+    | none => rw [hpl] at h; cases h
+    | some pl =>
+      rw [hpl] at h
+      simp only [ok_bind] at h
+      cases hw : P { votes := a.votes, n := some n, prev := a.prev, max := a.max } with
+      | error e => rw [hw] at h; cases h
+      | ok wv =>
+        rw [hw] at h
+        simp only [ok_bind] at h
+        cases wv with
+        | dict won =>
+          simp only [V.items, ok_bind] at h
+          by_cases hlv : (a.lv.getD V.none).truthy = true
+          · simp [hlv] at h; cases h
+          · simp only [hlv] at h
+            cases hm : won.mapM (fun p => do
+                let pld ← match pl with
+                  | .dict d => pure d
+                  | _ => throw eType
+                let lst ← match D.get? pld p.1 with
+                  | some (.list l) => pure l
+                  | some _ => throw eType
+                  | Option.none => throw eKey
+                let k ← p.2.asNat
+                pure (p.1, V.list (lst.take k))) with
+            | error e => simp [hm] at h; cases h
+            | ok rs =>
+              simp [hm] at h
+              refine ⟨n, pl, won, rs, rfl, rfl, rfl, (by cases h; rfl), ?_⟩
+              have hp := mapM_ok_forall₂ hm
+              clear hm h
+              induction hp with
+              | nil => exact .nil
+              | @cons x y xs ys hxy _ ih =>
+                refine .cons ?_ ih
+                cases pl with
+                | dict pld =>
+                  simp only [ok_bind] at hxy
+                  cases hg : D.get? pld x.1 with
+                  | none => simp [hg] at hxy; cases hxy
+                  | some lv =>
+                    cases lv with
+                    | list lst =>
+                      simp only [hg, ok_bind] at hxy
+                      cases hk : x.2.asNat with
+                      | error e => rw [hk] at hxy; cases hxy
+                      | ok k =>
+                        rw [hk] at hxy
+                        have : y = (x.1, V.list (lst.take k)) := by cases hxy; rfl
+                        subst this
+                        exact ⟨rfl, pld, lst, k, rfl, rfl, hk, rfl, List.length_take⟩
+                    | num _ => simp [hg] at hxy; cases hxy
+                    | cand _ => simp [hg] at hxy; cases hxy
+                    | tie _ => simp [hg] at hxy; cases hxy
+                    | none => simp [hg] at hxy; cases hxy
+                    | dict _ => simp [hg] at hxy; cases hxy
+                | num _ => cases hxy
+                | cand _ => cases hxy
+                | tie _ => cases hxy
+                | none => cases hxy
+                | list _ => cases hxy
+        | num _ => cases h
+        | cand _ => cases h
+        | tie _ => cases h
+        | none => cases h
+        | list _ => cases h
 
 /-! ### converters -/
 
